@@ -96,10 +96,10 @@ impl Value {
 
     pub fn integer(self) -> Result<i64> {
         match self {
-            Self::Number(val) => val
-                .to_string()
-                .parse()
-                .map_or(Err(Error::InvalidInteger), |num| Ok(num)),
+            // decided on the value, not on the text: 3.0 is the integer 3
+            Self::Number(val) if val.fract().is_zero() => {
+                val.to_i64().ok_or(Error::InvalidInteger)
+            }
             _ => Err(Error::InvalidInteger),
         }
     }
